@@ -5,3 +5,4 @@ import Ymq.Props.C05Sched
 #print axioms Ymq.C05.abort_stops
 #print axioms Ymq.C05.abort_bounded
 #print axioms Ymq.C05.abort_before_start
+#print axioms Ymq.C05.abort_consistent_of_input
